@@ -29,10 +29,12 @@ CHUNK = 128
 
 MENU = ['fail', 'setup_err', 'teardown_err', 'cleanup_err', 'body+teardown',
         'fail+teardown', 'sub:2,0,0', 'sub:1,1,0', 'sub:0,2,0', 'uxs', 'sysexit',
-        'skip_dec', 'xfail']
+        'skip_dec', 'xfail', 'swap_fail', 'swap_pass', 'sub_skip',
+        'redir_sub_fail']
 EXCS = ['ValueError', 'KeyError', 'User', 'Deep', 'BadStr', 'Unicode',
         'Recursion', 'Stop', 'OSError', 'Chained', 'Context', 'Chain3',
-        'Group', 'Noted', 'Syntax', 'Indent']
+        'Group', 'Noted', 'Syntax', 'Indent', 'CauseCycle', 'ContextCycle',
+        'SelfCause']
 
 
 def _menu():
